@@ -69,3 +69,58 @@ def add_bound_jobs(tier, props, blobs=(None,)):
                     m=m, n_live=n_live, prov=prov, explored=False, blobs=bl,
                     props=props), pkg_key='sampler'))
     return jobs
+
+
+RUN = 'harness.sampler_run:run_steps'
+
+
+def run_jobs(tier, props, which=('explored', 'empty', 'end', 'bound')):
+    """real run() unrolled K iterations (see harness/sampler_run.py)"""
+    thorough = tier == 'thorough'
+    jobs = []
+
+    def add(cfg, **kw):
+        cfg = dict(cfg, props=props)
+        jobs.append(Job(RUN, cfg, pkg_key='sampler',
+                        max_paths=kw.get('max_paths', 8000)))
+    if 'explored' in which:
+        for m, end, disc in [([1, 1], [1, 1], False), ([1, 1], [1, 0], True),
+                             ([2, 1], [1, 1], True)]:
+            for nb in (1, 2):
+                add(dict(m=m, explored=True, end_exp=end, discard=disc,
+                         n_batch=nb, K=1))
+        add(dict(m=[1, 1], explored=True, end_exp=[1, 1], n_batch=1, K=1,
+                 timeout='inf', force_timeout=False))
+        if thorough:
+            add(dict(m=[1, 1], explored=True, end_exp=[1, 0], discard=True,
+                     n_batch=1, K=2))
+            add(dict(m=[1, 1, 1], explored=True, end_exp=[1, 1, 1],
+                     n_batch=1, K=1))
+            add(dict(m=[1, 1], explored=True, end_exp=[1, 1], n_batch=1, K=2,
+                     n_like_max='inf'))
+    if 'empty' in which:
+        add(dict(m=[], explored=False, n_batch=1, K=1))
+        add(dict(m=[], explored=False, n_batch=2, K=1))
+        if thorough:
+            add(dict(m=[], explored=False, n_batch=1, K=2))
+            add(dict(m=[], explored=False, n_batch=2, K=2))
+    if 'end' in which:
+        # exploration continues / ends within the slice; no bound is due
+        for m, rd in [([1, 0, 1], True), ([1, 0, 1], False), ([1, 1], True),
+                      ([0, 1], False)]:
+            add(dict(m=m, explored=False, n_batch=1, K=1, no_new_bound=True,
+                     run_discard=rd))
+        if thorough:
+            add(dict(m=[1, 0, 0, 1], explored=False, n_batch=1, K=1,
+                     no_new_bound=True, run_discard=True))
+            add(dict(m=[1, 1], explored=False, n_batch=2, K=1,
+                     no_new_bound=True, run_discard=True))
+            add(dict(m=[1, 0, 1], explored=False, n_batch=1, K=2,
+                     no_new_bound=True, run_discard=True))
+    if 'bound' in which:
+        # a bound may be inserted inside the slice
+        add(dict(m=[2], explored=False, n_batch=1, K=1, n_live=1))
+        if thorough:
+            add(dict(m=[1, 1], explored=False, n_batch=1, K=1, n_live=1,
+                     prov=[0]), max_paths=12000)
+    return jobs
